@@ -76,6 +76,8 @@ type smCase struct {
 	raceTaken [2]int
 	pending   [][2]string
 	deleted   map[int64]bool // streams whose completion DeleteStream accepted (current map generation)
+	acceptedI map[int64]bool // streams AcceptStream returned
+	peerOpen  [2]int64       // number of streams the peer has opened (highest accepted frame)
 }
 
 const (
@@ -301,6 +303,7 @@ func (c *smCase) monAccepted(uni bool, id int64) {
 		c.monfail("accept/order", fmt.Sprintf("AcceptStream returned stream %d, expected %d (each stream once, in ID order)", id, want))
 	}
 	c.accepted[t]++
+	c.acceptedI[id] = true
 }
 
 // state monitors, run when the bubble is quiescent
@@ -514,6 +517,41 @@ func (c *smCase) tryRace() bool {
 	return true
 }
 
+// completion of a stream succeeds exactly when the stream is open (opened by us or by the
+// peer, not yet completed); anything else is a STREAM_STATE_ERROR.
+func (c *smCase) monDelete(id int64, e int) {
+	if id < 0 {
+		return
+	}
+	uni := id%4 >= 2
+	local := (id%2 == 0) == c.client
+	t := b2i(uni)
+	n := c.peerOpen[t]
+	if local {
+		n = c.openedOut[t]
+	}
+	open := id/4 < n && !c.deleted[id]
+	if open != (e == 0) {
+		c.monfail("delete/result", fmt.Sprintf("DeleteStream(%d): error class %d, stream open: %v", id, e, open))
+	}
+}
+
+// C15(a): credit is re-issued exactly as streams fully complete (accepted and completed):
+// the advertised limit is the configured limit plus the number of such streams.
+func (c *smCase) monCredit() {
+	for t := 0; t < 2; t++ {
+		var done int64
+		for id := range c.deleted {
+			if (id%4 >= 2) == (t == 1) && (id%2 == 0) != c.client && c.acceptedI[id] {
+				done++
+			}
+		}
+		if want := c.maxIn[t] + done; want <= 1<<60 && c.advIn[t] != want {
+			c.monfail("incoming/credit-reissue", fmt.Sprintf("%d streams fully completed, limit %d: advertised MAX_STREAMS is %d, expected %d", done, c.maxIn[t], c.advIn[t], want))
+		}
+	}
+}
+
 // C15(b): a new limit is answered with STREAMS_BLOCKED only if it still leaves a caller blocked
 // (checked when the bubble is quiescent after a MAX_STREAMS / transport parameters op).
 func (c *smCase) monSpuriousBlocked(fr []quic.VerifSMFrame) {
@@ -701,6 +739,7 @@ func (c *smCase) doOp() {
 		}
 		var e int
 		fr, fe, cf := c.ext(func() { e = v.Delete(id) })
+		c.monDelete(id, e)
 		if e == 0 {
 			c.deleted[id] = true
 		}
@@ -866,6 +905,8 @@ func (c *smCase) doOp() {
 			c.accepted = [2]int64{}
 			c.blockedAt = [2]map[int64]bool{{}, {}}
 			c.deleted = map[int64]bool{}
+			c.acceptedI = map[int64]bool{}
+			c.peerOpen = [2]int64{}
 			c.step("OReset", "RUnit", fr, "reset")
 			c.collect(fe, cf)
 		case !c.closed:
@@ -913,6 +954,9 @@ func (c *smCase) monFrameDispatch(id, got int64, e int, recv bool) {
 			return
 		}
 	}
+	if !local && e == 0 && id/4+1 > c.peerOpen[t] {
+		c.peerOpen[t] = id/4 + 1
+	}
 	if e != 0 && e != smErrLimit {
 		c.monfail("dispatch/unexpected-error", fmt.Sprintf("%s-side frame for stream %d: error class %d", kind, id, e))
 	}
@@ -947,7 +991,7 @@ func (c *smCase) snapOut(s quic.VerifSMOut) string {
 }
 
 func runSMCase(w *bufio.Writer, r *u.Rng, dist map[string]int) {
-	c := &smCase{w: w, r: r, failed: map[string]bool{}, deleted: map[int64]bool{}}
+	c := &smCase{w: w, r: r, failed: map[string]bool{}, deleted: map[int64]bool{}, acceptedI: map[int64]bool{}}
 	c.client = r.Bool()
 	lim := func() int64 {
 		if r.Chance(1, 16) {
@@ -989,6 +1033,7 @@ func runSMCase(w *bufio.Writer, r *u.Rng, dist map[string]int) {
 		for i := 0; i < nops && len(c.failed) == 0; i++ {
 			c.doOp()
 			c.monState()
+			c.monCredit()
 			c.flush()
 		}
 		final := u.App("SMCase", u.B(c.client), u.Z(c.maxIn[0]), u.Z(c.maxIn[1]), u.List(c.steps),
